@@ -79,6 +79,13 @@ func (a *AggOracle) processLatestGER(ctx context.Context, blockNumToFetch *uint6
 	// Fetch the latest GER
 	blockNum, gerToInject, err := a.getLastFinalizedGER(ctx, *blockNumToFetch)
 	if err != nil {
+		if errors.Is(err, l1infotreesync.ErrBlockNotProcessed) {
+			// keep asking for the same finalized block until the syncer reaches it; sampling a newer
+			// finalized block on every tick would starve the oracle while the syncer trails the tip
+			*blockNumToFetch = blockNum
+		} else {
+			*blockNumToFetch = 0
+		}
 		return err
 	}
 
